@@ -169,6 +169,12 @@ def check_request(case):
     rec = Recorder()
     router.register_client(rec.client)
     dep = drivers.Deployment(case["devices"], router)
+    if case.get("proxy"):
+        # the library's own Proxy driver (unconnected) next to the generated ones: it is handed every client message
+        # (accepts() is always true, for forwarding) but only answers for itself
+        from indi.device import Proxy
+
+        type("C07Proxy", (Proxy,), {})(name="PROXY", router=router)
     for spec in dep.specs:  # the observer wants BLOB updates too
         router.process_message(message.EnableBLOB(device=spec["name"], value="Also"), sender=rec.client)
     labels = set()
@@ -218,6 +224,8 @@ def check_request(case):
         for vname, exp in expected_defs(dep, d).items():
             if name is None or vname == name:
                 want[(dep.specs[d]["name"], vname)] = exp
+    if case.get("proxy") and devname is None and name is None:
+        want[("PROXY", "CONNECTION")] = "PROXY"
     got_defs = []
     for m in rec.messages:
         parse_back(m, "reply")
@@ -237,12 +245,15 @@ def check_request(case):
             f"getProperties(device={devname!r}, name={name!r}): definitions {keys}, expected {sorted(want)}",
         )
     for m in got_defs:
-        compare_def(m, want[(m.device, m.name)], "def")
+        if want[(m.device, m.name)] != "PROXY":
+            compare_def(m, want[(m.device, m.name)], "def")
     nt = changed >= 1
     for d in addressed:
         flags = [dep.is_enabled(d, g, v) for g, v in dep.vectors[d]]
         if any(flags) and not all(flags):
             nt = True
+    if case.get("proxy"):
+        labels.add("with-proxy-device")
     labels |= {f"name-{name_kind}", f"device-{'absent' if devname is None else 'unknown' if not addressed else 'named'}", f"devices={nd}"}
     if any(len(s["chain"]) >= 2 for s in dep.specs):
         labels.add("inherited")
@@ -255,6 +266,7 @@ case_st = st.fixed_dictionaries(
         "devices": drivers.deployment(max_devices=3).filter(lambda specs: all(drivers.spec_size_ok(s) for s in specs)),
         "ops": st.lists(drivers.driver_op() | drivers.driver_macro() | st.fixed_dictionaries({"op": st.just("reset"), "d": st.integers(0, 11), "v": st.integers(0, 11), "e": st.integers(0, 11), "val": drivers.value_st}) | st.fixed_dictionaries({"op": st.just("eenable"), "d": st.integers(0, 11), "v": st.integers(0, 11), "e": st.integers(0, 11), "on": st.booleans()}), max_size=15).map(drivers.flatten_ops),
         "req": request_st,
+        "proxy": st.sampled_from([False, False, True]),
     }
 )
 
